@@ -2,11 +2,13 @@
 
 Translation validation with a proved validator: the real functions are run through the public `mp` API on arguments of the
 sub-family where Mathlib proves a closed form; the exact output is decided against the exact value by `mpdrv spec/specc`
-(Mp.SpecRef.specCheck, sound by Props/C19.lean).  Arguments outside the sub-family are counted, not decided."""
+(Mp.SpecRef.specCheck, sound by Props/C19.lean).  Arguments outside the sub-family are counted, not decided.
+zeta(n)/altzeta(n) at integers n >= 2 proportional to the precision are decided against the direct-sum
+enclosure `Mp.SpecRef.zetaEncl` by `mpdrv spec2/specc2` (sound by Props/C19b.lean)."""
 import special_ops
 
 LEVEL = "translation_validation"
-LEAN_MODULES = ["Props.C19"]
+LEAN_MODULES = ["Props.C19", "Props.C19b"]
 ASSUMPTIONS = special_ops.ASSUMPTIONS["C19"]
 
 
